@@ -210,6 +210,10 @@ def fold(specs, flow):
     return out
 
 
+STATELESS = frozenset(["inc", "Call(inc)", "Variable", "Filter(even)", "RunIf", "Reverse", "Sequence()",
+                       "Split([])"])
+
+
 def check_compose(res, specs, flowspec, form_list=None):
     """Run every form of the list *specs* over the flow and judge it. Returns the last case."""
     kind, m = flowspec
@@ -247,7 +251,16 @@ def check_compose(res, specs, flowspec, form_list=None):
                           {"law": law, "form": form["kind"], "diff": cm.diff_kind(got, expected)},
                           note="expected = " + ("materialised fold over standalone elements"
                                                 if law == "fold" else "result of the flat Sequence"))
-        elif only_empty and got[0] == "ok":
+        elif (kind == "bare" and got[0] == "ok" and all(sp in STATELESS for sp in specs)):
+            # the same pipeline object over the same (immutable) flow again: elements without state
+            # compose to a function of the flow, so a second run / call yields the same values
+            res.count("rerun_checked")
+            again = cm.outcome(thunk)
+            if not cm.same(again, got):
+                res.violation(dict(case, law="rerun"), cm.show(again), cm.show(got),
+                              {"law": "rerun", "form": form["top"], "diff": cm.diff_kind(again, got)},
+                              note="second run of the same pipeline object (stateless elements, bare flow)")
+        if only_empty and got[0] == "ok" and cm.same(got, expected):
             # an empty Sequence is the identity: the very same objects come out
             res.count("identity_checked")
             if not (len(got[2]) == len(flow) and all(a is b for a, b in zip(got[2], flow))):
@@ -442,7 +455,7 @@ def replay(case):
     warnings.simplefilter("ignore")
     res = Result()
     law = case.get("law")
-    if law in ("compose", "identity"):
+    if law in ("compose", "identity", "rerun"):
         form = case["form"]
         # re-judge this form only (the flat form is always executed as the yardstick)
         n = len(case["els"])
